@@ -124,7 +124,7 @@ Fixpoint form_of (f : fac) : option form :=
   | FacStr _ => Some (FList true (FNumpy DChar []))
   | FacTArr _ ct => Some (FList false (FNumpy ct []))
   | FacTObject _ keep => Some (if keep then tobject_form else FEmptyF)
-  | FacSym _ d => Some (FNumpy DF64 [d; d])
+  | FacSym _ d => Some (FRegular d (FRegular d (FNumpy DF64 [])))      (* RegularForm(RegularForm(NumpyForm float64, n), n) *)
   | FacEmpty _ => Some FEmptyF
   | FacCgem _ => None
   end.
@@ -232,7 +232,7 @@ Fixpoint content_of (f : fac) (r : raw) {struct f} : option content :=
       else Some CEmptyA
   | FacSym _ dim =>
       match r with
-      | RArr dt d => Some (CNumpy dt [dim; dim] d)          (* raw_data.reshape(-1, full_dim, full_dim) *)
+      | RArr dt d => Some (CRegular dim (CRegular dim (CNumpy dt [] d)))   (* RegularArray(RegularArray(NumpyArray(raw_data.reshape(-1)), n), n) *)
       | _ => None
       end
   | FacEmpty _ => Some CEmptyA
